@@ -12,6 +12,8 @@ theorem be32_length (n : Nat) : (be32 n).length = 4 := rfl
 
 theorem caBX_length : caBX.length = 4 := by decide
 
+theorem sig_length : sig.length = 8 := rfl
+
 theorem wrap_length (s : Bytes) : (wrap s).length = s.length + 12 := by
   simp [wrap, mkChunk, be32_length, caBX_length]; omega
 
@@ -58,9 +60,9 @@ theorem walk_tiles (b : Bytes) (fuel pos : Nat) (ps : List Chunk) (h : walk b fu
       by_cases h2 : pos + 8 + rdBe32 b pos + 4 > b.length
       · simp [h2] at h
       · simp only [h2, if_false] at h
-        by_cases h3 : (slice b (pos + 4) 4).any (fun x => x ≥ 128) = true
+        by_cases h3 : (!nameOk (slice b (pos + 4) 4)) = true
         · simp [h3] at h
-        · simp only [h3, if_false] at h
+        · simp only [h3] at h
           by_cases h4 : (slice b (pos + 4) 4 == IEND) = true
           · simp only [h4, if_true] at h
             injection h with h; subst h
